@@ -1,3 +1,511 @@
-pub fn run(_cli: common::Cli) -> ! {
-    common::machinery("not built yet")
+//! C06: packets are only exchanged in protocol order; status and login never mix.
+//!
+//! Explicit-state breadth-first search over histories of serverbound packet kinds. A state is
+//! the history reaching it (a fresh `Connection` is built and the history replayed). A reference
+//! automaton predicts the exact clientbound sequence for the handshake, status and login phases
+//! and the constraints of the configuration phase.
+use crate::sim::*;
+use common::refs::codec::{self, Pkt, R, W};
+use common::{Cli, Report, Violation, par_for};
+use serde_json::{Value, json};
+use std::collections::HashSet;
+use std::sync::Mutex;
+use std::sync::atomic::{AtomicU64, Ordering};
+
+#[derive(Clone, Debug, PartialEq)]
+struct Kind {
+    name: &'static str,
+    id: i32,
+    body: Vec<u8>,
+    honest_enc: bool,
+}
+
+fn kinds() -> Vec<Kind> {
+    let k = |name: &'static str, id: i32, body: Vec<u8>| Kind { name, id, body, honest_enc: false };
+    let hs = |next: i32| W::new().varint(769).string("mc.example.org").u16(25565).varint(next).done();
+    vec![
+        k("handshake-status", 0, hs(1)),
+        k("handshake-login", 0, hs(2)),
+        k("handshake-transfer", 0, hs(3)),
+        k("handshake-next-0", 0, hs(0)),
+        k("handshake-next-4", 0, hs(4)),
+        k("handshake-next-neg1", 0, hs(-1)),
+        k("id0-empty(status-request)", 0, vec![]),
+        k("ping-0", 1, W::new().u64(0).done()),
+        k("ping-42", 1, W::new().u64(42).done()),
+        k("ping-max", 1, W::new().u64(u64::MAX).done()),
+        k("login-start", 0, W::new().string(NAME1).u128(UUID1).done()),
+        Kind { name: "encryption-response-honest", id: 1, body: vec![], honest_enc: true },
+        k("encryption-response-garbage", 1, W::new().bytes(&[1u8; 128]).bytes(&[2u8; 128]).done()),
+        k("login-plugin-response", 2, W::new().varint(0).bool(false).done()),
+        k("id3-empty(login-ack/ack-finish)", 3, vec![]),
+        k("cookie-response-session-none", 4, W::new().string("passage:session").bool(false).done()),
+        k("cookie-response-auth-none", 4, W::new().string("passage:authentication").bool(false).done()),
+        k("client-information", 0, codec::sb_client_information_body("en_us", 10, 0, true, 0x7f, 1, false, true, 0)),
+        k("conf-cookie-response", 1, W::new().string("passage:session").bool(false).done()),
+        k("plugin-message", 2, W::new().string("minecraft:brand").raw(b"\x07vanilla").done()),
+        k("keep-alive-unsolicited", 4, W::new().u64(0x0102030405060708).done()),
+        k("conf-pong", 5, W::new().i32(7).done()),
+        k("resource-pack-response", 6, W::new().u128(5).varint(0).done()),
+        k("known-packs", 7, W::new().varint(0).done()),
+        k("unknown-id-8", 8, vec![]),
+        k("unknown-id-7f", 0x7f, vec![0]),
+    ]
+}
+
+#[derive(Clone, Copy, Debug, PartialEq)]
+enum Dec {
+    Yes,
+    No,
+    /// decodes but leaves trailing bytes / is not what a client would send: both readings allowed
+    Ambiguous,
+}
+
+fn dec_of(r: Result<usize, codec::DecodeError>, len: usize) -> Dec {
+    match r {
+        Ok(used) if used == len => Dec::Yes,
+        Ok(_) => Dec::Ambiguous,
+        Err(_) => Dec::No,
+    }
+}
+
+fn dec_handshake(b: &[u8]) -> (Dec, i32) {
+    let mut r = R::new(b);
+    let res = (|| {
+        r.varint()?;
+        r.string()?;
+        r.u16()?;
+        r.varint()
+    })();
+    match res {
+        Ok(next) => (if r.pos == b.len() { Dec::Yes } else { Dec::Ambiguous }, next),
+        Err(_) => (Dec::No, 0),
+    }
+}
+fn dec_login_start(b: &[u8]) -> Dec {
+    let mut r = R::new(b);
+    dec_of((|| { r.string()?; r.u128()?; Ok(r.pos) })(), b.len())
+}
+fn dec_login_cookie(b: &[u8]) -> Dec {
+    let mut r = R::new(b);
+    dec_of(
+        (|| {
+            r.string()?;
+            // the flag is a boolean: only 0 and 1 are what a client sends
+            let f = r.u8()?;
+            if f == 1 {
+                r.bytes()?;
+                // a payload is not in the alphabet (it would have to be valid JSON): ambiguous
+                return Ok(usize::MAX);
+            }
+            if f != 0 {
+                return Ok(usize::MAX);
+            }
+            Ok(r.pos)
+        })(),
+        b.len(),
+    )
+}
+fn dec_client_info(b: &[u8]) -> Dec {
+    let mut r = R::new(b);
+    dec_of(
+        (|| {
+            r.string()?;
+            r.u8()?;
+            let c = r.varint()?;
+            r.u8()?;
+            r.u8()?;
+            let m = r.varint()?;
+            r.u8()?;
+            r.u8()?;
+            let p = r.varint()?;
+            if !(0..3).contains(&c) || !(0..2).contains(&m) || !(0..3).contains(&p) {
+                return Err(codec::DecodeError::Other("enum".into()));
+            }
+            Ok(r.pos)
+        })(),
+        b.len(),
+    )
+}
+
+#[derive(Clone, Debug, PartialEq)]
+enum Exp {
+    StatusResponse,
+    Pong(u64),
+    CookieReq(&'static str),
+    EncReq,
+    LoginSuccess,
+}
+
+#[derive(Clone, Debug, PartialEq)]
+enum End {
+    /// the connection is over; `ok` = listen() returned Ok
+    Ended { ok: bool },
+    /// the server waits for the next packet in a pre-configuration state
+    Waiting,
+    /// configuration phase reached (after Login Acknowledged); `info` = a Client Information was sent
+    Config { info: bool },
+}
+
+#[derive(Clone, Debug)]
+struct Pred {
+    outs: Vec<Exp>,
+    end: End,
+    /// packets of the history consumed by the reference
+    consumed: usize,
+}
+
+#[derive(Clone, Debug)]
+struct Cfg {
+    secret: bool,
+    status: &'static str,
+    /// latency of discovery (ms)
+    disc_ms: u64,
+}
+
+/// The reference automaton. Returns every allowed prediction (more than one where a frame is
+/// ambiguous between "the expected packet" and "another packet").
+fn predict(hist: &[Kind], cfg: &Cfg) -> Vec<Pred> {
+    #[derive(Clone, Copy, PartialEq, Debug)]
+    enum St {
+        Hand,
+        StReq,
+        StPing,
+        LgStart(bool),
+        LgSession(bool),
+        LgAuth,
+        LgEnc,
+        LgAck,
+        Conf { info: bool },
+    }
+    fn step(st: St, outs: Vec<Exp>, hist: &[Kind], i: usize, cfg: &Cfg, acc: &mut Vec<Pred>) {
+        if let St::Conf { info } = st {
+            let info = info || hist[i..].iter().any(|k| k.id == 0 && dec_client_info(&k.body) != Dec::No);
+            acc.push(Pred { outs, end: End::Config { info }, consumed: hist.len() });
+            return;
+        }
+        if i == hist.len() {
+            acc.push(Pred { outs, end: End::Waiting, consumed: i });
+            return;
+        }
+        let k = &hist[i];
+        let dead = |acc: &mut Vec<Pred>, outs: &Vec<Exp>| acc.push(Pred { outs: outs.clone(), end: End::Ended { ok: false }, consumed: i + 1 });
+        // (decodes as the expected packet?, next state, outputs added)
+        let (d, next, add): (Dec, St, Vec<Exp>) = match st {
+            St::Hand => {
+                if k.id != 0 {
+                    (Dec::No, st, vec![])
+                } else {
+                    let (d, n) = dec_handshake(&k.body);
+                    match (d, n) {
+                        (Dec::No, _) => (Dec::No, st, vec![]),
+                        (d, 1) => (d, St::StReq, vec![]),
+                        (d, 2) => (d, St::LgStart(false), vec![]),
+                        (d, 3) => (d, St::LgStart(true), vec![]),
+                        _ => (Dec::No, st, vec![]),
+                    }
+                }
+            }
+            St::StReq => (if k.id == 0 { if k.body.is_empty() { Dec::Yes } else { Dec::Ambiguous } } else { Dec::No }, St::StPing, vec![Exp::StatusResponse]),
+            St::StPing => {
+                if k.id == 1 && k.body.len() >= 8 && !k.honest_enc {
+                    let p = u64::from_be_bytes(k.body[..8].try_into().unwrap());
+                    (if k.body.len() == 8 { Dec::Yes } else { Dec::Ambiguous }, St::Hand, vec![Exp::Pong(p)])
+                } else {
+                    (Dec::No, st, vec![])
+                }
+            }
+            St::LgStart(tr) => (if k.id == 0 { dec_login_start(&k.body) } else { Dec::No }, St::LgSession(tr), vec![Exp::CookieReq("passage:session")]),
+            St::LgSession(tr) => {
+                let d = if k.id == 4 { dec_login_cookie(&k.body) } else { Dec::No };
+                if tr && cfg.secret { (d, St::LgAuth, vec![Exp::CookieReq("passage:authentication")]) } else { (d, St::LgEnc, vec![Exp::EncReq]) }
+            }
+            St::LgAuth => (if k.id == 4 { dec_login_cookie(&k.body) } else { Dec::No }, St::LgEnc, vec![Exp::EncReq]),
+            St::LgEnc => (if k.honest_enc { Dec::Yes } else { Dec::No }, St::LgAck, vec![Exp::LoginSuccess]),
+            St::LgAck => (if k.id == 3 { if k.body.is_empty() { Dec::Yes } else { Dec::Ambiguous } } else { Dec::No }, St::Conf { info: false }, vec![]),
+            St::Conf { .. } => unreachable!(),
+        };
+        if d == Dec::No || d == Dec::Ambiguous {
+            dead(acc, &outs);
+        }
+        if d == Dec::Yes || d == Dec::Ambiguous {
+            let mut o = outs.clone();
+            o.extend(add);
+            if st == St::StPing {
+                // the status exchange is complete
+                acc.push(Pred { outs: o, end: End::Ended { ok: true }, consumed: i + 1 });
+            } else {
+                step(next, o, hist, i + 1, cfg, acc);
+            }
+        }
+    }
+    let mut acc = vec![];
+    step(St::Hand, vec![], hist, 0, cfg, &mut acc);
+    acc
+}
+
+fn build(hist: &[Kind], cfg: &Cfg) -> Case {
+    let mut case = Case::default();
+    case.cfg.auth_secret = cfg.secret.then(|| b"c06-secret".to_vec());
+    case.adapters.status = match cfg.status {
+        "none" => StatusPlan::None,
+        "full" => StatusPlan::Full,
+        _ => StatusPlan::Minimal,
+    };
+    case.adapters.disc_ms = cfg.disc_ms;
+    case.script = hist
+        .iter()
+        .map(|k| st(When::Idle, if k.honest_enc { Act::EncResponse(EncKind::Honest) } else { Act::Frame { id: k.id, body: k.body.clone() } }))
+        .collect();
+    // the first frame decides the phase in which the client decodes
+    if let Some(k) = hist.first() {
+        if k.id == 0 {
+            if let (d, n) = dec_handshake(&k.body) {
+                if d != Dec::No {
+                    case.script[0] = st(When::Idle, Act::Handshake { proto: 769, host: "mc.example.org".into(), port: 25565, next: n });
+                }
+            }
+        }
+    }
+    case.horizon_ms = 60_000;
+    case
+}
+
+fn matches_exp(e: &Exp, p: &Pkt, cfg: &Cfg) -> bool {
+    match (e, p) {
+        (Exp::StatusResponse, Pkt::StatusResponse { body }) => {
+            let want = expected_status_json(&match cfg.status {
+                "none" => StatusPlan::None,
+                "full" => StatusPlan::Full,
+                _ => StatusPlan::Minimal,
+            });
+            let got: Value = serde_json::from_str(body).unwrap_or(json!("<not json>"));
+            json_covers(&got, &want)
+        }
+        (Exp::Pong(a), Pkt::Pong { payload }) => a == payload,
+        (Exp::CookieReq(k), Pkt::LoginCookieRequest { key }) => k == key,
+        (Exp::EncReq, Pkt::EncryptionRequest { verify_token, public_key, .. }) => verify_token.len() == 32 && !public_key.is_empty(),
+        (Exp::LoginSuccess, Pkt::LoginSuccess { .. }) => true,
+        _ => false,
+    }
+}
+
+/// `got` equals `want` where null and absent are the same thing
+fn json_covers(got: &Value, want: &Value) -> bool {
+    match (got, want) {
+        (Value::Object(g), Value::Object(w)) => {
+            w.iter().all(|(k, wv)| json_covers(g.get(k).unwrap_or(&Value::Null), wv)) && g.iter().all(|(k, gv)| w.contains_key(k) || gv.is_null())
+        }
+        (Value::Object(g), Value::Null) => g.values().all(Value::is_null),
+        (Value::Array(g), Value::Array(w)) => g.len() == w.len() && g.iter().zip(w).all(|(a, b)| json_covers(a, b)),
+        (a, b) => a == b,
+    }
+}
+
+/// Checks one observation against one prediction; returns the first mismatch.
+fn check(pred: &Pred, obs: &Obs, cfg: &Cfg) -> Option<(String, String)> {
+    if let RunResult::Panic(p) = &obs.result {
+        return Some(("panic".into(), p.clone()));
+    }
+    let pk: Vec<&Pkt> = obs.packets.iter().map(|(_, p)| p).collect();
+    let names = || pk.iter().map(|p| p.kind()).collect::<Vec<_>>();
+    // exact prefix
+    for (i, e) in pred.outs.iter().enumerate() {
+        match pk.get(i) {
+            Some(p) if matches_exp(e, p, cfg) => {}
+            other => return Some((format!("expected-{e:?}-missing-or-wrong").replace(|c: char| !c.is_ascii_alphanumeric() && c != '-', ""), format!("reply #{i} should be {e:?} but is {:?}; replies {:?}", other.map(|p| p.to_json()), names()))),
+        }
+    }
+    let rest = &pk[pred.outs.len().min(pk.len())..];
+    let routing = obs.calls.iter().any(|c| matches!(c.kind(), "discover" | "filter" | "select"));
+    let status_calls = obs.calls.iter().filter(|c| c.kind() == "status").count();
+    let want_status = pred.outs.iter().filter(|e| **e == Exp::StatusResponse).count();
+    if status_calls != want_status {
+        return Some(("status-service-call-count".into(), format!("status service consulted {status_calls} times, expected {want_status}")));
+    }
+    let auth_calls = obs.calls.iter().filter(|c| c.kind() == "authenticate").count();
+    if auth_calls > 0 && !pred.outs.contains(&Exp::LoginSuccess) {
+        return Some(("authentication-before-encryption-response".into(), "authentication service consulted before a valid Encryption Response".into()));
+    }
+    match &pred.end {
+        End::Ended { ok } => {
+            if !rest.is_empty() {
+                return Some(("reply-to-unexpected-packet".into(), format!("the connection had to end without a further reply but sent {:?}", rest.iter().map(|p| p.kind()).collect::<Vec<_>>())));
+            }
+            let fine = if *ok { obs.result == RunResult::Ok } else { obs.result.is_err() };
+            if !fine {
+                return Some(("connection-not-ended".into(), format!("expected the connection to end ({}), listen() gave {}", if *ok { "Ok" } else { "error" }, obs.result.kind())));
+            }
+            if routing {
+                return Some(("routing-outside-configuration".into(), "routing services consulted".into()));
+            }
+        }
+        End::Waiting => {
+            if !rest.is_empty() {
+                return Some(("unsolicited-reply".into(), format!("extra replies {:?}", rest.iter().map(|p| p.kind()).collect::<Vec<_>>())));
+            }
+            if obs.result != RunResult::Horizon {
+                return Some(("ended-while-waiting".into(), format!("the server should wait for the next packet, listen() gave {}", obs.result.kind())));
+            }
+            if routing {
+                return Some(("routing-outside-configuration".into(), "routing services consulted".into()));
+            }
+        }
+        End::Config { info } => {
+            let mut finished = false;
+            for p in rest {
+                if finished {
+                    return Some(("packet-after-transfer-or-disconnect".into(), format!("replies {:?}", names())));
+                }
+                match p {
+                    Pkt::KeepAlive { .. } | Pkt::StoreCookie { .. } => {}
+                    Pkt::Transfer { .. } | Pkt::ConfDisconnect { .. } => finished = true,
+                    other => return Some(("illegal-configuration-reply".into(), format!("{} sent in the configuration phase; replies {:?}", other.kind(), names()))),
+                }
+            }
+            if routing && !*info {
+                return Some(("routing-before-client-information".into(), format!("calls {:?}", obs.calls.iter().map(|c| c.kind()).collect::<Vec<_>>())));
+            }
+            if rest.iter().any(|p| matches!(p, Pkt::StoreCookie { .. } | Pkt::Transfer { .. })) && !routing {
+                return Some(("transfer-without-routing".into(), format!("replies {:?}", names())));
+            }
+        }
+    }
+    if obs.garbled.is_some() || obs.partial_tail > 0 {
+        return Some(("undecodable-clientbound".into(), format!("{:?}", obs.garbled)));
+    }
+    if let RunResult::Panic(p) = &obs.result {
+        return Some(("panic".into(), p.clone()));
+    }
+    None
+}
+
+fn hist_json(h: &[Kind]) -> Value {
+    json!(h.iter().map(|k| k.name).collect::<Vec<_>>())
+}
+
+pub fn run(cli: Cli) -> ! {
+    let rep = Report::new("C06", cli.tier, "model_checking");
+    let all_kinds = kinds();
+    let thorough = cli.tier.thorough();
+    let mut cfgs = vec![];
+    for secret in [false, true] {
+        for status in ["minimal", "none", "full"] {
+            for disc_ms in if thorough { vec![0u64, 17_000] } else { vec![0u64] } {
+                cfgs.push(Cfg { secret, status, disc_ms });
+            }
+        }
+    }
+    if !thorough {
+        cfgs.push(Cfg { secret: true, status: "minimal", disc_ms: 17_000 });
+    }
+    let depth_cap = if thorough { 11 } else { 9 };
+    // in the configuration phase only this many further packets are explored per history
+    let conf_extra = if thorough { 3 } else { 2 };
+
+    if let Some(case) = cli.replay.clone() {
+        let names: Vec<String> = serde_json::from_value(case["history"].clone()).unwrap_or_default();
+        let hist: Vec<Kind> = names.iter().filter_map(|n| all_kinds.iter().find(|k| k.name == n).cloned()).collect();
+        let cfg = Cfg { secret: case["secret"].as_bool().unwrap_or(false), status: match case["status"].as_str() { Some("none") => "none", Some("full") => "full", _ => "minimal" }, disc_ms: case["disc_ms"].as_u64().unwrap_or(0) };
+        let obs = crate::sim::run(&build(&hist, &cfg));
+        let preds = predict(&hist, &cfg);
+        println!("history: {}", hist_json(&hist));
+        println!("allowed predictions: {preds:?}");
+        println!("observed: {}", serde_json::to_string_pretty(&obs.to_json()).unwrap());
+        let errs: Vec<_> = preds.iter().map(|p| check(p, &obs, &cfg)).collect();
+        if errs.iter().all(|e| e.is_some()) {
+            let (k, t) = errs[0].clone().unwrap();
+            rep.violation(Violation { key: k, text: t, replay: case.clone(), weight: 0 });
+        }
+        rep.set("states", json!(1));
+        rep.set("transitions", json!(hist.len().max(1)));
+        rep.set("traces_validated_against_impl", json!(1));
+        rep.finish();
+    }
+
+    let states = AtomicU64::new(0);
+    let transitions = AtomicU64::new(0);
+    let distinct: Mutex<HashSet<String>> = Mutex::new(HashSet::new());
+    let max_depth = AtomicU64::new(0);
+    let ambiguous = AtomicU64::new(0);
+    for cfg in &cfgs {
+        // breadth-first: frontier of histories whose connection is still waiting for input
+        let mut frontier: Vec<Vec<Kind>> = vec![vec![]];
+        let mut depth = 0;
+        while !frontier.is_empty() && depth < depth_cap {
+            depth += 1;
+            max_depth.fetch_max(depth as u64, Ordering::Relaxed);
+            let mut children: Vec<Vec<Kind>> = vec![];
+            for h in &frontier {
+                // the honest Encryption Response needs the token of an Encryption Request: it is only
+                // in the alphabet where one has been received and not yet answered (elsewhere the
+                // static 'garbage' response stands for the same wire shape)
+                let at_enc = predict(h, cfg).iter().any(|p| p.end == End::Waiting && p.outs.last() == Some(&Exp::EncReq));
+                for k in &all_kinds {
+                    if k.honest_enc && !at_enc {
+                        continue;
+                    }
+                    let mut c = h.clone();
+                    c.push(k.clone());
+                    children.push(c);
+                }
+            }
+            let next: Mutex<Vec<Vec<Kind>>> = Mutex::new(vec![]);
+            par_for(children.len(), |i| {
+                let h = &children[i];
+                let obs = crate::sim::run(&build(h, cfg));
+                states.fetch_add(1, Ordering::Relaxed);
+                transitions.fetch_add(1, Ordering::Relaxed);
+                let preds = predict(h, cfg);
+                if preds.len() > 1 {
+                    ambiguous.fetch_add(1, Ordering::Relaxed);
+                }
+                let errs: Vec<Option<(String, String)>> = preds.iter().map(|p| check(p, &obs, cfg)).collect();
+                if errs.iter().all(|e| e.is_some()) {
+                    let (k, t) = errs[0].clone().unwrap();
+                    rep.violation(Violation {
+                        key: k,
+                        text: format!("history {} secret={} status={} disc_ms={}: {t}", hist_json(h), cfg.secret, cfg.status, cfg.disc_ms),
+                        replay: json!({"history": hist_json(h), "secret": cfg.secret, "status": cfg.status, "disc_ms": cfg.disc_ms}),
+                        weight: h.len() as u64,
+                    });
+                    return;
+                }
+                distinct.lock().unwrap().insert(format!("{:?}|{}|{:?}", obs.kinds(), obs.result.kind(), obs.calls.iter().map(|c| c.kind()).collect::<Vec<_>>()));
+                // expand only states in which the implementation is still waiting for input
+                if obs.result == RunResult::Horizon && obs.steps_done == h.len() {
+                    // configuration phase: bounded number of extra packets
+                    let conf_len = preds.iter().filter_map(|p| if let End::Config { .. } = p.end { Some(()) } else { None }).count();
+                    if conf_len > 0 {
+                        let ack = h.iter().position(|k| k.id == 3 && k.body.is_empty()).unwrap_or(h.len());
+                        if h.len() - ack > conf_extra {
+                            return;
+                        }
+                    }
+                    next.lock().unwrap().push(h.clone());
+                }
+            });
+            frontier = next.into_inner().unwrap();
+        }
+    }
+    let d = distinct.lock().unwrap().len() as u64;
+    rep.require("distinct observations", d, 30);
+    rep.require("histories reaching depth >= 8", max_depth.load(Ordering::Relaxed), 8);
+    rep.set("states", json!(states.load(Ordering::Relaxed)));
+    rep.set("transitions", json!(transitions.load(Ordering::Relaxed)));
+    rep.set("traces_validated_against_impl", json!(states.load(Ordering::Relaxed)));
+    rep.set("evaluations", json!(states.load(Ordering::Relaxed)));
+    rep.set("distinct_nontrivial", json!(d));
+    rep.set("max_depth", json!(max_depth.load(Ordering::Relaxed)));
+    rep.set("configurations", json!(cfgs.len()));
+    rep.set("packet_kinds", json!(all_kinds.len()));
+    rep.set("ambiguous_histories", json!(ambiguous.load(Ordering::Relaxed)));
+    rep.set("exhaustive", json!(true));
+    rep.set("rule", json!(format!("breadth-first over histories of {} serverbound packet kinds (every packet id 0x00-0x08 and 0x7f with a canonical body for the phase that defines it, six next-state values, three ping payloads), expanding exactly the histories after which the implementation still waits for input, depth cap {depth_cap}, at most {conf_extra} further packets after Login Acknowledged; x {} configurations (secret, status value, discovery latency)", all_kinds.len(), cfgs.len())));
+    rep.sample(json!({"history": ["handshake-status", "id0-empty(status-request)", "ping-42"], "expect": "[StatusResponse, Pong(42)], Ok"}));
+    rep.sample(json!({"history": ["handshake-transfer", "login-start", "cookie-response-session-none", "cookie-response-auth-none", "encryption-response-honest", "id3-empty(login-ack/ack-finish)", "plugin-message", "client-information"], "secret": true, "expect": "CookieRequest x2, EncryptionRequest, LoginSuccess, StoreCookie x2, Transfer"}));
+    rep.sample(json!({"history": ["handshake-login", "ping-0"], "expect": "no reply, error"}));
+    rep.assume("a frame whose id matches the expected packet but whose body leaves trailing bytes (or carries a payload outside the alphabet) may be treated either as the expected packet or as another packet");
+    rep.assume("which other packets are tolerated in the configuration phase is not fixed by the statement: there only the set and order of replies and 'no routing before Client Information' are judged");
+    rep.finish()
 }
